@@ -167,3 +167,298 @@ theorem finAfter_STOP (env : Env) :
   simp [finAfter]
 
 end EnvM
+
+namespace EnvM
+set_option linter.unusedSimpArgs false
+
+/-! ### the end-of-run stamps only ever advance (outside START_ACTIVITY) -/
+
+/-- present stays present, set stays set -/
+def TV.keeps (a b : TV) : Prop := (a ≠ .absent → b ≠ .absent) ∧ (a.isVal = true → b.isVal = true)
+
+theorem TV.keeps_refl (a : TV) : TV.keeps a a := ⟨id, id⟩
+theorem TV.keeps_trans {a b c : TV} (h1 : TV.keeps a b) (h2 : TV.keeps b c) : TV.keeps a c :=
+  ⟨fun h => h2.1 (h1.1 h), fun h => h2.2 (h1.2 h)⟩
+
+def EndKeeps (v v' : Vars) : Prop := TV.keeps v.soeor v'.soeor ∧ TV.keeps v.eoeor v'.eoeor
+
+theorem EndKeeps.refl (v : Vars) : EndKeeps v v := ⟨TV.keeps_refl _, TV.keeps_refl _⟩
+theorem EndKeeps.trans {a b c : Vars} (h1 : EndKeeps a b) (h2 : EndKeeps b c) : EndKeeps a c :=
+  ⟨TV.keeps_trans h1.1 h2.1, TV.keeps_trans h1.2 h2.2⟩
+theorem EndKeeps.of_eq {a b : Vars} (h : b = a) : EndKeeps a b := by rw [h]; exact EndKeeps.refl a
+
+theorem setSoeor_keeps (env : Env) (tr : String) (p : Bool) : EndKeeps env.vars (setSoeorIfEmpty env tr p).1.vars := by
+  unfold setSoeorIfEmpty
+  split
+  · refine ⟨⟨fun _ => by simp [tick], fun _ => by simp [tick, TV.isVal]⟩, ?_⟩
+    simp only [tick]; exact TV.keeps_refl _
+  · exact EndKeeps.refl _
+
+theorem setSoeor_sets (env : Env) (tr : String) (p : Bool) (h : env.vars.soeor ≠ .absent) :
+    (setSoeorIfEmpty env tr p).1.vars.soeor.isVal = true := by
+  unfold setSoeorIfEmpty
+  split
+  · simp [tick, TV.isVal]
+  · rename_i hne
+    cases hs : env.vars.soeor with
+    | absent => exact absurd hs h
+    | empty => rw [hs] at hne; simp [TV.isEmpty] at hne
+    | val t => rfl
+
+theorem setEoeor_keeps (env : Env) (tr : String) (s : RunStatus) : EndKeeps env.vars (setEoeorIfEmpty env tr s).1.vars := by
+  unfold setEoeorIfEmpty
+  split
+  · refine ⟨?_, ⟨fun _ => by simp [tick], fun _ => by simp [tick, TV.isVal]⟩⟩
+    simp only [tick]; exact TV.keeps_refl _
+  · exact EndKeeps.refl _
+
+theorem setEoeor_sets (env : Env) (tr : String) (s : RunStatus) (h : env.vars.eoeor ≠ .absent) :
+    (setEoeorIfEmpty env tr s).1.vars.eoeor.isVal = true := by
+  unfold setEoeorIfEmpty
+  split
+  · simp [tick, TV.isVal]
+  · rename_i hne
+    cases hs : env.vars.eoeor with
+    | absent => exact absurd hs h
+    | empty => rw [hs] at hne; simp [TV.isEmpty] at hne
+    | val t => rfl
+
+theorem handleHooks_keeps (env : Env) (hooks : List Hook) (m : Moment) (p : Int → Bool) :
+    EndKeeps env.vars (handleHooks env hooks m p).1.vars := EndKeeps.of_eq (handleHooks_vars env hooks m p)
+
+theorem bkBefore_keeps (env : Env) (e : Ev) (r : Bool) (he : e ≠ .START_ACTIVITY) : EndKeeps env.vars (bkBefore env e r).1.vars := by
+  unfold bkBefore
+  cases e <;> simp only [] <;> first | exact EndKeeps.refl _ | exact setSoeor_keeps .. | exact absurd rfl he
+
+theorem beforeEvent_keeps (env : Env) (hooks : List Hook) (e : Ev) (r : Bool) (he : e ≠ .START_ACTIVITY) :
+    EndKeeps env.vars (beforeEvent env hooks e r).1.vars := by
+  have h1 := handleHooks_keeps env hooks (.before e) negW
+  have h2 := bkBefore_keeps (handleHooks env hooks (.before e) negW).1 e r he
+  have h3 := handleHooks_keeps (bkBefore (handleHooks env hooks (.before e) negW).1 e r).1 hooks (.before e) posW
+  unfold beforeEvent
+  simp only
+  (repeat' split) <;> first | exact h1 | exact h1.trans h2 | exact (h1.trans h2).trans h3
+
+theorem leaveState_keeps (env : Env) (hooks : List Hook) (e : Ev) (b : Bool) :
+    EndKeeps env.vars (leaveState env hooks e b).1.vars := by
+  have h1 := handleHooks_keeps env hooks (.leave env.st) negW
+  have h2 := setSoeor_keeps (handleHooks env hooks (.leave env.st) negW).1 e.name false
+  have h3 := handleHooks_keeps (setSoeorIfEmpty (handleHooks env hooks (.leave env.st) negW).1 e.name false).1 hooks (.leave env.st) posW
+  have h3' := handleHooks_keeps (handleHooks env hooks (.leave env.st) negW).1 hooks (.leave env.st) posW
+  unfold leaveState
+  simp only
+  (repeat' split) <;>
+    first
+    | exact h1
+    | exact h1.trans h2
+    | exact (h1.trans h2).trans h3
+    | exact h1.trans h3'
+
+theorem enterState_keeps (env : Env) (hooks : List Hook) : EndKeeps env.vars (enterState env hooks).1.vars := by
+  unfold enterState
+  simp only
+  exact (handleHooks_keeps env hooks _ negW).trans (handleHooks_keeps _ hooks _ posW)
+
+theorem bkAfter_keeps (env : Env) (e : Ev) (f : Bool) : EndKeeps env.vars (bkAfter env e f).1.vars := by
+  unfold bkAfter
+  cases e <;> simp only [] <;>
+    first
+    | exact EndKeeps.refl _
+    | exact setEoeor_keeps ..
+    | (simp only [tick]; exact ⟨TV.keeps_refl _, TV.keeps_refl _⟩)
+    | (simp only [tick]; exact ⟨TV.keeps_refl _, ⟨fun _ => by simp, fun _ => by simp [TV.isVal]⟩⟩)
+
+theorem finAfter_keeps (env : Env) (e : Ev) : EndKeeps env.vars (finAfter env e).1.vars := by
+  unfold finAfter
+  split
+  · exact ⟨TV.keeps_refl _, TV.keeps_refl _⟩
+  · exact EndKeeps.refl _
+
+theorem afterEvent_keeps (env : Env) (hooks : List Hook) (e : Ev) (errs : List (Nat × Moment)) :
+    EndKeeps env.vars (afterEvent env hooks e errs).1.vars := by
+  unfold afterEvent
+  simp only
+  exact (((handleHooks_keeps env hooks _ negW).trans (bkAfter_keeps _ e _)).trans (handleHooks_keeps _ hooks _ posW)).trans (finAfter_keeps _ e)
+
+/-- Outside START_ACTIVITY no transition ever empties or removes an end-of-run stamp. -/
+theorem fsmEvent_keeps (env : Env) (hooks : List Hook) (e : Ev) (b r : Bool) (he : e ≠ .START_ACTIVITY) :
+    EndKeeps env.vars (fsmEvent env hooks e b r).1.vars := by
+  unfold fsmEvent
+  split
+  · exact EndKeeps.refl _
+  · rename_i d hd
+    simp only
+    have hb := beforeEvent_keeps env hooks e r he
+    split
+    · exact hb
+    · have hl := leaveState_keeps (beforeEvent env hooks e r).1 hooks e b
+      split
+      · exact hb.trans hl
+      · have hen := enterState_keeps { (leaveState (beforeEvent env hooks e r).1 hooks e b).1 with st := d } hooks
+        exact ((hb.trans hl).trans hen).trans (afterEvent_keeps _ hooks e _)
+
+/-- before_STOP_ACTIVITY / before_GO_ERROR that let the event go on have stamped the end of the run. -/
+theorem beforeEvent_sets_soeor (env : Env) (hooks : List Hook) (e : Ev) (r : Bool) (he : e = .STOP_ACTIVITY ∨ e = .GO_ERROR)
+    (hn : (beforeEvent env hooks e r).2.2 = none) (hp : env.vars.soeor ≠ .absent) :
+    (beforeEvent env hooks e r).1.vars.soeor.isVal = true := by
+  have hset : (bkBefore (handleHooks env hooks (.before e) negW).1 e r).1.vars.soeor.isVal = true := by
+    have hp' : (handleHooks env hooks (.before e) negW).1.vars.soeor ≠ .absent := by rw [handleHooks_vars]; exact hp
+    rcases he with rfl | rfl <;> (unfold bkBefore; simp only []; exact setSoeor_sets _ _ _ hp')
+  unfold beforeEvent at hn ⊢
+  simp only at hn ⊢
+  revert hn
+  (repeat' split) <;> intro hn <;> first | (cases hn; done) | (rw [handleHooks_vars]; exact hset)
+
+/-- after_STOP_ACTIVITY / after_GO_ERROR stamp the completion of the end of the run. -/
+theorem afterEvent_sets_eoeor (env : Env) (hooks : List Hook) (e : Ev) (errs : List (Nat × Moment)) (he : e = .STOP_ACTIVITY ∨ e = .GO_ERROR)
+    (hp : env.vars.eoeor ≠ .absent) : (afterEvent env hooks e errs).1.vars.eoeor.isVal = true := by
+  have hbk : ∀ env' f, env'.vars.eoeor ≠ .absent → (bkAfter env' e f).1.vars.eoeor.isVal = true := by
+    intro env' f hp'
+    rcases he with rfl | rfl
+    · unfold bkAfter; simp [tick, TV.isVal]
+    · unfold bkAfter; simp only []; exact setEoeor_sets _ _ _ hp'
+  unfold afterEvent
+  simp only
+  have h1 := hbk (handleHooks env hooks (.after e) negW).1
+    (!(if (handleHooks env hooks (.after e) negW).2.2 > 0 then [((handleHooks env hooks (.after e) negW).2.2, Moment.after e)] else errs).isEmpty)
+    (by rw [handleHooks_vars]; exact hp)
+  exact (finAfter_keeps _ e).2.2 (by rw [handleHooks_vars]; exact h1)
+
+theorem dst_from_running (e : Ev) (d : St) (h : dst? e .RUNNING = some d) : e = .STOP_ACTIVITY ∨ e = .GO_ERROR := by
+  cases e <;> simp [dst?] at h <;> simp
+
+/-- However a TryTransition makes the environment leave RUNNING (STOP_ACTIVITY, GO_ERROR), both end-of-run
+    stamps are set afterwards. -/
+theorem fsmEvent_end_stamps (env : Env) (hooks : List Hook) (e : Ev) (b r : Bool)
+    (hrun : env.st = .RUNNING) (hs : env.vars.soeor ≠ .absent) (he : env.vars.eoeor ≠ .absent)
+    (hleft : (fsmEvent env hooks e b r).1.st ≠ .RUNNING) :
+    (fsmEvent env hooks e b r).1.vars.soeor.isVal = true ∧ (fsmEvent env hooks e b r).1.vars.eoeor.isVal = true := by
+  unfold fsmEvent at hleft ⊢
+  cases hd : dst? e env.st with
+  | none => rw [hd] at hleft; exact absurd hrun hleft
+  | some d =>
+    have hev := dst_from_running e d (by rw [← hrun]; exact hd)
+    have hne : e ≠ .START_ACTIVITY := by rcases hev with rfl | rfl <;> decide
+    simp only [hd] at hleft ⊢
+    have hbst := (beforeEvent_st env hooks e r).1
+    have hbk := beforeEvent_keeps env hooks e r hne
+    cases hbn : (beforeEvent env hooks e r).2.2 with
+    | some res => simp only [hbn] at hleft; exact absurd (hbst.trans hrun) hleft
+    | none =>
+      simp only [hbn] at hleft ⊢
+      have hlst := (leaveState_st (beforeEvent env hooks e r).1 hooks e b).1
+      have hlk := leaveState_keeps (beforeEvent env hooks e r).1 hooks e b
+      cases hln : (leaveState (beforeEvent env hooks e r).1 hooks e b).2.2 with
+      | some res => simp only [hln] at hleft; exact absurd ((hlst.trans hbst).trans hrun) hleft
+      | none =>
+        simp only [hln]
+        have hso := beforeEvent_sets_soeor env hooks e r hev hbn hs
+        have hen := enterState_keeps { (leaveState (beforeEvent env hooks e r).1 hooks e b).1 with st := d } hooks
+        have hchain := hlk.trans hen
+        have hsoe : (enterState { (leaveState (beforeEvent env hooks e r).1 hooks e b).1 with st := d } hooks).1.vars.soeor.isVal = true :=
+          hchain.1.2 hso
+        have heo : (enterState { (leaveState (beforeEvent env hooks e r).1 hooks e b).1 with st := d } hooks).1.vars.eoeor ≠ .absent :=
+          hchain.2.1 (hbk.2.1 he)
+        exact ⟨(afterEvent_keeps _ hooks e _).1.2 hsoe, afterEvent_sets_eoeor _ hooks e _ hev heo⟩
+
+
+theorem callAllSync_vars (env : Env) (m : Moment) (w : Int) (hs : List Hook) : (callAllSync env m w hs).1.vars = env.vars := by
+  induction hs generalizing env with
+  | nil => rfl
+  | cons h hs ih => simp only [callAllSync]; rw [ih]; rfl
+
+theorem destroyWeights_vars (env : Env) (hooks : List Hook) (ws : List Int) : (destroyWeights env hooks ws).1.vars = env.vars := by
+  induction ws generalizing env with
+  | nil => rfl
+  | cons w ws ih => simp only [destroyWeights]; rw [ih, callAllSync_vars]
+
+/-- A teardown that takes the environment out of RUNNING has stamped both ends of the run. -/
+theorem teardown_end_stamps (env : Env) (hooks : List Hook) (f r1 r2 : Bool) (n : Nat)
+    (hrun : env.st = .RUNNING) (hs : env.vars.soeor ≠ .absent) (he : env.vars.eoeor ≠ .absent)
+    (hleft : (teardown env hooks f r1 r2 n).1.st ≠ .RUNNING) :
+    (teardown env hooks f r1 r2 n).1.vars.soeor.isVal = true ∧ (teardown env hooks f r1 r2 n).1.vars.eoeor.isVal = true := by
+  have hst : (handleHooks env hooks (.leave env.st) allW).1.st = .RUNNING := by rw [handleHooks_st]; exact hrun
+  have hs' : (handleHooks env hooks (.leave env.st) allW).1.vars.soeor ≠ .absent := by rw [handleHooks_vars]; exact hs
+  have he' : (handleHooks env hooks (.leave env.st) allW).1.vars.eoeor ≠ .absent := by rw [handleHooks_vars]; exact he
+  have hA := setSoeor_sets (handleHooks env hooks (.leave env.st) allW).1 "TEARDOWN" true hs'
+  have hAk := setSoeor_keeps (handleHooks env hooks (.leave env.st) allW).1 "TEARDOWN" true
+  have hB := setEoeor_sets (setSoeorIfEmpty (handleHooks env hooks (.leave env.st) allW).1 "TEARDOWN" true).1 "TEARDOWN" .started (hAk.2.1 he')
+  have hBk := setEoeor_keeps (setSoeorIfEmpty (handleHooks env hooks (.leave env.st) allW).1 "TEARDOWN" true).1 "TEARDOWN" .started
+  have hAB := hBk.1.2 hA
+  unfold teardown at hleft ⊢
+  split at hleft
+  · exact absurd hrun hleft
+  · split at hleft
+    · exact absurd hrun hleft
+    · rename_i h1 h2
+      rw [if_neg h1, if_neg h2]
+      simp only [hst, if_true] at hleft ⊢
+      split at hleft
+      · simp at hleft; exact absurd hrun hleft
+      · rename_i h3
+        rw [if_neg h3]
+        split at hleft
+        · simp at hleft; exact absurd hrun hleft
+        · rename_i h4
+          rw [if_neg h4]
+          simp only [destroyWeights_vars]
+          exact ⟨hAB, hB⟩
+
+/-- The ControlEnvironment glue FORCED the state: the requested transition failed and the GO_ERROR that
+    follows it did not go through either (cancelled by a critical hook at before_GO_ERROR / leave_<state>,
+    or not allowed from the state), so `Sm.SetState("ERROR")` wrote the state without any callback. -/
+def forcedByGlue (env : Env) (hooks : List Hook) (e : Ev) (b r : Bool) : Bool :=
+  !(tryTransition env hooks e b r).2.2.isOk &&
+    !(tryTransition (tryTransition env hooks e b r).1 hooks .GO_ERROR true false).2.2.moved
+
+theorem keeps_not_moved (r : Result) (h : r.keepsState = true) : r.moved = false := by
+  cases r <;> simp_all [Result.keepsState, Result.moved]
+
+theorem dst_running_ne (e : Ev) (d : St) (h : dst? e .RUNNING = some d) : d ≠ .RUNNING := by
+  cases e <;> simp [dst?] at h <;> subst h <;> decide
+
+/-- Through the API glue too, unless the glue forced the state. -/
+theorem controlApi_end_stamps (env : Env) (hooks : List Hook) (e : Ev) (b r : Bool)
+    (hrun : env.st = .RUNNING) (hs : env.vars.soeor ≠ .absent) (he : env.vars.eoeor ≠ .absent)
+    (hnf : forcedByGlue env hooks e b r = false)
+    (hleft : (controlApi env hooks e b r).1.st ≠ .RUNNING) :
+    (controlApi env hooks e b r).1.vars.soeor.isVal = true ∧ (controlApi env hooks e b r).1.vars.eoeor.isVal = true := by
+  unfold forcedByGlue at hnf
+  unfold controlApi at hleft ⊢
+  simp only at hleft ⊢
+  split at hleft
+  · rename_i hok
+    rw [if_pos hok]
+    exact fsmEvent_end_stamps env hooks e b r hrun hs he hleft
+  · rename_i hok
+    rw [if_neg hok]
+    have hmv : (tryTransition (tryTransition env hooks e b r).1 hooks .GO_ERROR true false).2.2.moved = true := by
+      simp only [Bool.and_eq_false_iff, Bool.not_eq_false', Bool.not_eq_eq_eq_not, Bool.not_true] at hnf
+      rcases hnf with h | h
+      · exact absurd h hok
+      · simpa using h
+    -- the final variables are those after the fallback GO_ERROR
+    have hgoal : (fsmEvent (fsmEvent env hooks e b r).1 hooks .GO_ERROR true false).1.vars.soeor.isVal = true ∧
+        (fsmEvent (fsmEvent env hooks e b r).1 hooks .GO_ERROR true false).1.vars.eoeor.isVal = true := by
+      obtain ⟨_, hk | ⟨d, hd, hst, _⟩⟩ := fsmEvent_st env hooks e b r
+      · -- the requested transition left the state alone: the fallback leaves RUNNING
+        have hrun' : (fsmEvent env hooks e b r).1.st = .RUNNING := hk.1.trans hrun
+        have hkeep : EndKeeps env.vars (fsmEvent env hooks e b r).1.vars := by
+          by_cases hst : e = .START_ACTIVITY
+          · subst hst; unfold fsmEvent; rw [hrun]; exact EndKeeps.refl _
+          · exact fsmEvent_keeps env hooks e b r hst
+        apply fsmEvent_end_stamps _ hooks .GO_ERROR true false hrun' (hkeep.1.1 hs) (hkeep.2.1 he)
+        obtain ⟨_, hk' | ⟨d', hd', hst', _⟩⟩ := fsmEvent_st (fsmEvent env hooks e b r).1 hooks .GO_ERROR true false
+        · have := keeps_not_moved _ hk'.2
+          unfold tryTransition at hmv; rw [this] at hmv; cases hmv
+        · rw [hst', goError_dst _ _ hd']; decide
+      · -- the requested transition went through (its failure was only reported): the run is closed already
+        have hne : (fsmEvent env hooks e b r).1.st ≠ .RUNNING := by
+          rw [hst]; exact dst_running_ne e d (by rw [← hrun]; exact hd)
+        have h1 := fsmEvent_end_stamps env hooks e b r hrun hs he hne
+        have hk := fsmEvent_keeps (fsmEvent env hooks e b r).1 hooks .GO_ERROR true false (by decide)
+        exact ⟨hk.1.2 h1.1, hk.2.2 h1.2⟩
+    split <;> exact hgoal
+
+
+end EnvM
